@@ -284,12 +284,126 @@ theorem window_line (S : List Nat) (a b : Nat) (hab : a ≤ b) (hb : b ≤ S.len
   rw [e4, List.take_left' rfl, List.count_append, cont_ne_nl ct hct]
   rfl
 
+/-! ### lines ended within a prefix of a byte stream (YAML rule: LF, CRLF, lone CR) -/
+
+open SaphyrVerif.Spec.Snippet (endsLineAt linesEndedBefore)
+
+@[simp] theorem linesEndedBefore_zero (s : List Nat) : linesEndedBefore s 0 = 0 := rfl
+
+theorem linesEndedBefore_succ (s : List Nat) (n : Nat) :
+    linesEndedBefore s (n + 1) = linesEndedBefore s n + (if endsLineAt s n = true then 1 else 0) := by
+  unfold linesEndedBefore
+  rw [List.range_succ, List.countP_append, List.countP_cons, List.countP_nil]
+  simp
+
+theorem linesEndedBefore_congr (s t : List Nat) (n : Nat) (h : ∀ i, i < n → endsLineAt s i = endsLineAt t i) :
+    linesEndedBefore s n = linesEndedBefore t n := by
+  induction n with
+  | zero => rfl
+  | succ n ih =>
+    rw [linesEndedBefore_succ, linesEndedBefore_succ, ih (fun i hi => h i (by omega)), h n (by omega)]
+
+theorem linesEndedBefore_le (s : List Nat) (n : Nat) : linesEndedBefore s n ≤ n := by
+  induction n with
+  | zero => simp
+  | succ n ih => rw [linesEndedBefore_succ]; split <;> omega
+
+theorem linesEndedBefore_mono (s : List Nat) (m n : Nat) (h : m ≤ n) : linesEndedBefore s m ≤ linesEndedBefore s n := by
+  induction n with
+  | zero => have : m = 0 := by omega
+            subst this; exact Nat.le_refl _
+  | succ n ih =>
+    by_cases hm : m = n + 1
+    · subst hm; exact Nat.le_refl _
+    · have := ih (by omega)
+      rw [linesEndedBefore_succ]; omega
+
+/-- whether byte `i` ends a line depends on bytes `i` and `i + 1` only -/
+theorem endsLineAt_append_left (s t : List Nat) (i : Nat) (h : i + 1 < s.length) :
+    endsLineAt (s ++ t) i = endsLineAt s i := by
+  unfold endsLineAt
+  rw [List.getElem?_append_left (by omega), List.getElem?_append_left h]
+
+theorem linesEndedBefore_append_left (s t : List Nat) (n : Nat) (h : n < s.length) :
+    linesEndedBefore (s ++ t) n = linesEndedBefore s n :=
+  linesEndedBefore_congr _ _ n (fun i hi => endsLineAt_append_left s t i (by omega))
+
+theorem linesEndedBefore_take (s : List Nat) (m n : Nat) (h : n < m) :
+    linesEndedBefore (s.take m) n = linesEndedBefore s n := by
+  by_cases hm : m ≤ s.length
+  · have e : s = s.take m ++ s.drop m := (List.take_append_drop m s).symm
+    conv => rhs; rw [e]
+    rw [linesEndedBefore_append_left _ _ n (by rw [List.length_take]; omega)]
+  · rw [List.take_of_length_le (by omega)]
+
+/-- bytes that are neither LF nor CR end no line -/
+theorem linesEndedBefore_add_of_not_break (s : List Nat) (a k : Nat)
+    (h : ∀ i, a ≤ i → i < a + k → s[i]? ≠ some 0x0A ∧ s[i]? ≠ some 0x0D) :
+    linesEndedBefore s (a + k) = linesEndedBefore s a := by
+  induction k with
+  | zero => rfl
+  | succ k ih =>
+    rw [← Nat.add_assoc, linesEndedBefore_succ, ih (fun i h1 h2 => h i h1 (by omega))]
+    have := h (a + k) (by omega) (by omega)
+    have e : endsLineAt s (a + k) = false := by
+      unfold endsLineAt
+      simp [this.1, this.2]
+    rw [e]; simp
+
+/-- the byte evicted from a full ring ended a line, as `push_ring_bytes` decides it (the byte after it
+is the ring's new first byte, or the incoming byte when the ring holds a single byte), is exactly
+"this byte of the stream ends a line" -/
+theorem evicted_ends_line (seen : List Nat) (b e : Nat) (tl : List Nat) (i : Nat)
+    (hdrop : seen.drop i = e :: tl) :
+    decide (e = 0x0A ∨ (e = 0x0D ∧ tl.head?.getD b ≠ 0x0A)) = endsLineAt (seen ++ [b]) i := by
+  have hlt : i < seen.length := by
+    by_cases hq : i < seen.length
+    · exact hq
+    · rw [List.drop_of_length_le (by omega)] at hdrop; cases hdrop
+  have hget : seen[i]? = some e := by
+    have := congrArg List.head? hdrop
+    rw [List.head?_drop] at this
+    simpa using this
+  have hdrop1 : seen.drop (i + 1) = tl := by
+    have := congrArg List.tail hdrop
+    rw [List.tail_drop] at this
+    simpa using this
+  have hnext : (seen ++ [b])[i + 1]? = some (tl.head?.getD b) := by
+    cases tl with
+    | nil =>
+      have hl : seen.length = i + 1 := by
+        have := congrArg List.length hdrop1
+        rw [List.length_drop] at this
+        simp at this; omega
+      rw [List.getElem?_append_right (by omega), hl]
+      simp
+    | cons t ts =>
+      have hl : i + 1 < seen.length := by
+        have := congrArg List.length hdrop1
+        rw [List.length_drop] at this
+        simp at this; omega
+      rw [List.getElem?_append_left hl]
+      have := congrArg List.head? hdrop1
+      rw [List.head?_drop] at this
+      simpa using this
+  unfold endsLineAt
+  rw [List.getElem?_append_left hlt, hget, hnext]
+  by_cases h1 : e = 0x0A
+  · simp [h1]
+  · by_cases h2 : e = 0x0D
+    · by_cases h3 : tl.head?.getD b = 0x0A
+      · simp [h2, h3]
+      · simp [h2, h3]
+    · simp [h1, h2]
+
 /-! ### `push_ring_bytes` keeps the last `cap` bytes -/
 
-/-- invariant of the ring after the byte sequence `seen` has gone through `push_ring_bytes` -/
+/-- invariant of the ring after the byte sequence `seen` has gone through `push_ring_bytes`: the ring
+holds the last `cap` bytes, knows their offset, and its first byte lies on line 1 + the number of lines
+(YAML rule) that ended within the evicted bytes -/
 def RingInv (cap : Nat) (seen : List Nat) (r : Ring) : Prop :=
   r.buf = seen.drop (seen.length - cap) ∧ (seen ≠ [] → r.startOffset = seen.length - cap) ∧
-    r.startLine = 1 + (seen.take (seen.length - cap)).count 0x0A
+    r.startLine = 1 + linesEndedBefore seen (seen.length - cap)
 
 theorem ringPush1_inv (cap : Nat) (hcap : 1 ≤ cap) (seen : List Nat) (r : Ring) (b : Nat)
     (hlen : seen.length + 2 ≤ usizeMax) (h : RingInv cap seen r) :
@@ -301,7 +415,7 @@ theorem ringPush1_inv (cap : Nat) (hcap : 1 ≤ cap) (seen : List Nat) (r : Ring
   · -- not yet full: nothing is evicted
     have hk : seen.length - cap = 0 := by omega
     rw [hk, List.drop_zero] at hbuf
-    rw [hk, List.take_zero] at hline
+    rw [hk, linesEndedBefore_zero] at hline
     have hk' : (seen ++ [b]).length - cap = 0 := by simp only [List.length_append, List.length_cons, List.length_nil]; omega
     have hne : ¬ ((if r.buf.isEmpty = true then { r with startOffset := seen.length } else r).buf.length = cap) := by
       split <;> (simp only [hbuf]; omega)
@@ -315,7 +429,7 @@ theorem ringPush1_inv (cap : Nat) (hcap : 1 ≤ cap) (seen : List Nat) (r : Ring
       · have h1 : r.buf.isEmpty = false := by rw [hbuf]; cases seen <;> simp_all
         rw [h1]; simp only [Bool.false_eq_true, if_false]
         rw [hoff hs]; omega
-    · rw [hk', List.take_zero]; split <;> simp [hline]
+    · rw [hk', linesEndedBefore_zero]; split <;> simp [hline]
   · -- full: the oldest byte is evicted
     have hge : cap ≤ seen.length := by omega
     have hsne : seen ≠ [] := by intro h; rw [h] at hge; simp at hge; omega
@@ -337,31 +451,20 @@ theorem ringPush1_inv (cap : Nat) (hcap : 1 ≤ cap) (seen : List Nat) (r : Ring
         simpa using this
       have hk' : (seen ++ [b]).length - cap = seen.length - cap + 1 := by
         simp only [List.length_append, List.length_cons, List.length_nil]; omega
-      have hget : seen[seen.length - cap]? = some e := by
-        have := congrArg List.head? hdrop
-        rw [List.head?_drop] at this
-        simpa using this
+      have hev := evicted_ends_line seen b e tl (seen.length - cap) hdrop
       refine ⟨?_, ?_, ?_⟩
       · show tl ++ [b] = _
         rw [hk', List.drop_append_of_le_length (by omega), hdrop1]
       · intro _
         show r.startOffset + 1 = _
         rw [hoff hsne, hk']
-      · show (if e = 0x0A then satAdd r.startLine 1 else r.startLine) = _
-        rw [hk', List.take_append_of_le_length (by omega)]
-        have htk : seen.take (seen.length - cap + 1) = seen.take (seen.length - cap) ++ [e] := by
-          rw [List.take_add_one, hget]; rfl
-        rw [htk, List.count_append, hline]
-        have hcnt : (seen.take (seen.length - cap)).count 0x0A ≤ seen.length := by
-          have h1 : (seen.take (seen.length - cap)).count 0x0A ≤ (seen.take (seen.length - cap)).length :=
-            List.count_le_length
-          rw [List.length_take] at h1; omega
-        by_cases he : e = 0x0A
-        · rw [if_pos he, he, satAdd_eq _ _ (by omega)]; simp; omega
-        · rw [if_neg he]
-          have : List.count 0x0A [e] = 0 := by
-            apply List.count_eq_zero.mpr; simp; exact fun h => he h.symm
-          rw [this]; rfl
+      · show (if decide (e = 0x0A ∨ (e = 0x0D ∧ tl.head?.getD b ≠ 0x0A)) = true then satAdd r.startLine 1
+            else r.startLine) = _
+        rw [hev, hk', linesEndedBefore_succ, linesEndedBefore_append_left seen [b] _ (by omega), hline]
+        have hcnt := linesEndedBefore_le seen (seen.length - cap)
+        by_cases he : endsLineAt (seen ++ [b]) (seen.length - cap) = true
+        · rw [if_pos he, if_pos he, satAdd_eq _ _ (by omega)]; omega
+        · rw [if_neg he, if_neg he]; rfl
 
 theorem ringPush_inv (cap : Nat) (hcap : 1 ≤ cap) (bs seen : List Nat) (r : Ring)
     (hlen : seen.length + bs.length + 2 ≤ usizeMax) (h : RingInv cap seen r) :
@@ -377,16 +480,16 @@ theorem ringPush_inv (cap : Nat) (hcap : 1 ≤ cap) (bs seen : List Nat) (r : Ri
     exact this
 
 /-- after reading `bs` from a fresh reader the ring holds the last `cap` bytes of `bs`, knows their
-absolute offset, and its line number is the number of evicted line breaks + 1 -/
+absolute offset, and its line number is the number of lines ended within the evicted bytes + 1 -/
 theorem ringPush_spec (cap : Nat) (hcap : 1 ≤ cap) (bs : List Nat) (hlen : bs.length + 2 ≤ usizeMax) :
     RingInv cap bs (ringPush cap ⟨[], 0, 1, true⟩ 0 bs) := by
   have h0 : RingInv cap [] ⟨[], 0, 1, true⟩ := ⟨by simp, fun h => absurd rfl h, by simp⟩
   have := ringPush_inv cap hcap bs [] ⟨[], 0, 1, true⟩ (by simpa using hlen) h0
   simpa using this
 
-/-- `ring_starts_line`: nothing has been evicted, or the last evicted byte was a line break -/
+/-- `ring_starts_line`: nothing has been evicted, or the last evicted byte ended a line -/
 def RingStarts (cap : Nat) (seen : List Nat) (r : Ring) : Prop :=
-  r.startsLine = decide (seen.length ≤ cap ∨ seen[seen.length - cap - 1]? = some 0x0A)
+  r.startsLine = decide (seen.length ≤ cap ∨ endsLineAt seen (seen.length - cap - 1) = true)
 
 theorem ringPush1_starts (cap : Nat) (hcap : 1 ≤ cap) (seen : List Nat) (r : Ring) (b : Nat)
     (h : RingInv cap seen r) (hs : RingStarts cap seen r) :
@@ -419,18 +522,15 @@ theorem ringPush1_starts (cap : Nat) (hcap : 1 ≤ cap) (seen : List Nat) (r : R
     | cons e tl =>
       simp only []
       have hdrop : seen.drop (seen.length - cap) = e :: tl := by rw [← hbuf, hq]
-      have hget : seen[seen.length - cap]? = some e := by
-        have := congrArg List.head? hdrop
-        rw [List.head?_drop] at this
-        simpa using this
+      have hev := evicted_ends_line seen b e tl (seen.length - cap) hdrop
       have hidx : (seen ++ [b]).length - cap - 1 = seen.length - cap := by
         simp only [List.length_append, List.length_cons, List.length_nil]; omega
       have hnle : ¬ (seen ++ [b]).length ≤ cap := by
         simp only [List.length_append, List.length_cons, List.length_nil]; omega
-      show decide (e = 0x0A) = _
-      rw [hidx, List.getElem?_append_left (by omega), hget]
+      show decide (e = 0x0A ∨ (e = 0x0D ∧ tl.head?.getD b ≠ 0x0A)) = _
+      rw [hev, hidx]
       have hnle' : ¬ seen.length + 1 ≤ cap := by omega
-      simp [hnle, hnle']
+      simp [hnle']
 
 theorem ringPush_starts (cap : Nat) (hcap : 1 ≤ cap) (bs seen : List Nat) (r : Ring)
     (hlen : seen.length + bs.length + 2 ≤ usizeMax) (h : RingInv cap seen r) (hs : RingStarts cap seen r) :
